@@ -97,3 +97,51 @@ Definition lay2_ok (l : lay2) : bool :=
   (List.length (m_lines l) <=? 7)%nat && forallb all_blank (m_lines l)
   && ((m_quote l =? 34) || (m_quote l =? 39)) && all_ws (m_a l) && all_ws (m_b l).
 Definition lay2_str : lay2 := Lay2 [] 34 CRLF CRLF.
+
+(** * header texts built from an arbitrary list of (NAME, value) lines: corruption, omission, transposition *)
+Definition names9 : list text :=
+  [T "OFXHEADER"; T "DATA"; T "VERSION"; T "SECURITY"; T "ENCODING"; T "CHARSET"; T "COMPRESSION"; T "OLDFILEUID"; T "NEWFILEUID"].
+Definition names8 : list text :=
+  [T "OFXHEADER"; T "DATA"; T "VERSION"; T "SECURITY"; T "ENCODING"; T "CHARSET"; T "OLDFILEUID"; T "NEWFILEUID"].
+Definition names5 : list text := [T "OFXHEADER"; T "VERSION"; T "SECURITY"; T "OLDFILEUID"; T "NEWFILEUID"].
+(** "NAME:value" lines joined and followed by CRLF, then one more CRLF: the shape of OFXHeaderV1.__str__ *)
+Fixpoint render1 (fs : list (text * text)) : text :=
+  match fs with
+  | [] => CRLF
+  | (n, v) :: r => n ++ 58 :: v ++ CRLF ++ render1 r
+  end.
+Definition fields1 (h : hdr1) : list (text * text) :=
+  [(T "OFXHEADER", dec_of_Z (h1_ofxheader h)); (T "DATA", h1_data h); (T "VERSION", dec_of_Z (h1_version h));
+   (T "SECURITY", h1_security h); (T "ENCODING", h1_encoding h); (T "CHARSET", h1_charset h);
+   (T "COMPRESSION", h1_compression h); (T "OLDFILEUID", h1_old h); (T "NEWFILEUID", h1_new h)].
+(** the shape of OFXHeaderV2.__str__: XML declaration, CRLF, the OFX declaration with its attributes, CRLF *)
+Fixpoint render2_attrs (fs : list (text * text)) : text :=
+  match fs with
+  | [] => []
+  | (n, v) :: r => 32 :: n ++ T "=""" ++ v ++ 34 :: render2_attrs r
+  end.
+Definition render2 (fs : list (text * text)) : text :=
+  xml_decl ++ CRLF ++ T "<?OFX" ++ render2_attrs fs ++ T "?>" ++ CRLF.
+Definition fields2 (h : hdr2) : list (text * text) :=
+  [(T "OFXHEADER", dec_of_Z (h2_ofxheader h)); (T "VERSION", dec_of_Z (h2_version h)); (T "SECURITY", h2_security h);
+   (T "OLDFILEUID", h2_old h); (T "NEWFILEUID", h2_new h)].
+(** a value as a field corruption may leave it: not empty, no whitespace, no colon, no quote, no '<' *)
+Definition plainc (c : N) : bool := negb (is_space c) && negb (c =? 58) && negb (c =? 34) && negb (c =? 60).
+Definition value_ok (v : text) : bool := forallb plainc v && negb (len v =? 0).
+Definition fs_ok (names : list text) (fs : list (text * text)) : bool :=
+  forallb (fun nv => mem_text (fst nv) names && value_ok (snd nv)) fs.
+(** list surgery *)
+Fixpoint remove_nth {A} (n : nat) (l : list A) : list A :=
+  match n, l with O, _ :: r => r | S k, x :: r => x :: remove_nth k r | _, [] => [] end.
+Fixpoint set_nth {A} (n : nat) (y : A) (l : list A) : list A :=
+  match n, l with O, _ :: r => y :: r | S k, x :: r => x :: set_nth k y r | _, [] => [] end.
+Definition swap_nth {A} (i j : nat) (l : list A) : list A :=
+  match nth_error l i, nth_error l j with
+  | Some a, Some b => set_nth j a (set_nth i b l)
+  | _, _ => l
+  end.
+(** [w] occurs in [l] as a contiguous window *)
+Fixpoint is_prefix (w l : list text) : bool :=
+  match w, l with [], _ => true | a :: w', b :: l' => text_eqb a b && is_prefix w' l' | _ :: _, [] => false end.
+Fixpoint has_window (w l : list text) : bool :=
+  is_prefix w l || match l with [] => false | _ :: r => has_window w r end.
